@@ -124,4 +124,22 @@ example : errOf (parseModelText ['Y', ' ', '=', ' ', '{', '0', '}']) = some .par
 example : errOf (parseModelText [' ', ' ', 'Y', ' ', '=', ' ', 'X']) = some .indentationError := by decide
 example : errOf (parseModelText ['Y', ' ', '=', ' ', '{', 'Y', '}']) = some .symbolError := by decide
 
+/-! ## Non-vacuity (review): the hypotheses of the theorems above at `demoText` (two statements, three symbols) -/
+
+def demoStmts : List Parser.Stmt := (stmtsOf (Lx.parseScript demoText)).toOption.getD []
+def demoSyms : List Parser.Symbol := (parseModelText demoText).toOption.getD []
+theorem demoStmts_eq : stmtsOf (Lx.parseScript demoText) = .ok demoStmts := rfl
+theorem demoSyms_eq : parseModelText demoText = .ok demoSyms := rfl
+-- stmts_wellIndexed: `h`, with two real statements
+example : demoStmts.length = 2 ∧ Parser.WellIndexed demoStmts :=
+  ⟨by decide +kernel, stmts_wellIndexed demoText demoStmts demoStmts_eq⟩
+-- parseModelText_ok_symbols_wellformed: `h`, with three real symbols (one with a lag, one with a lead)
+example : demoSyms.length = 3 ∧ ∀ s ∈ demoSyms, (s.name = none ↔ s.type = .verbatim) ∧
+    (s.lags = .none ∨ ∃ m, s.lags = .int m ∧ m ≤ 0) ∧ (s.leads = .none ∨ ∃ m, s.leads = .int m ∧ 0 ≤ m) :=
+  ⟨by decide +kernel, parseModelText_ok_symbols_wellformed demoText demoSyms demoSyms_eq⟩
+-- parseModelText_error_classes: `h` for each class
+example : parseModelText ['Y', ' ', '=', ' ', '{', '0', '}'] = .error .parserError ∧
+    parseModelText [' ', ' ', 'Y', ' ', '=', ' ', 'X'] = .error .indentationError ∧
+    parseModelText ['Y', ' ', '=', ' ', '{', 'Y', '}'] = .error .symbolError := ⟨rfl, rfl, rfl⟩
+
 end Fsic.Pipeline
